@@ -8,6 +8,7 @@
 // Script ops (inputs only; tokens are mapped to real values here):
 //   upload{to,k,c,d,name,mime,pairs,ts,ttl,gz,fsync}   delete{to,k,c}
 //   fault{kind: ro|rw|unmount|mount|voldelete, r}
+//   race{k,c,to1,d1,to2,d2}     two uploads for one file id at the same time
 // reset carries {repl, vttl, n (copy count), keys}.
 // The driver never compares replicas: the TLA+ judge (ReplWriteTrace) does.
 package main
@@ -186,6 +187,29 @@ func (r *runner) upload(vid uint32, e tr.Ev) {
 		e["res"] = "err"
 		e["msg"] = errText(rb)
 	}
+}
+
+// race: two uploads for the same file id issued at the same time (through the same or different copies as the
+// primary). Inputs: k, c, to1, d1, to2, d2; both carry a name and a client timestamp of their own.
+func (r *runner) race(vid uint32, e tr.Ev) {
+	mk := func(to interface{}, d interface{}, name, ts string) tr.Ev {
+		return tr.Ev{"to": to, "k": e["k"], "c": e["c"], "d": d, "name": name, "mime": "y3", "pairs": "p0", "ts": ts,
+			"ttl": "", "gz": false, "fsync": false}
+	}
+	a, b := mk(e["to1"], e["d1"], "n1", "old"), mk(e["to2"], e["d2"], "n5", "none")
+	var wg sync.WaitGroup
+	start := make(chan struct{})
+	for _, x := range []tr.Ev{a, b} {
+		wg.Add(1)
+		go func(x tr.Ev) {
+			defer wg.Done()
+			<-start
+			r.upload(vid, x)
+		}(x)
+	}
+	close(start)
+	wg.Wait()
+	e["res1"], e["status1"], e["res2"], e["status2"] = a["res"], a["status"], b["res"], b["status"]
 }
 
 func errText(rb []byte) string {
@@ -412,6 +436,8 @@ func (r *runner) runExec(ex []tr.Ev) []tr.Ev {
 				r.upload(vid, e)
 			case "delete":
 				r.del(vid, e)
+			case "race":
+				r.race(vid, e)
 			case "fault":
 				r.fault(vid, e)
 			default:
